@@ -438,6 +438,9 @@ impl CommandBuilder<'_> {
             eprintln!("{command:?}");
         }
 
+        #[cfg(uutils_findutils_verif)]
+        let mut command = verif::HookedCommand(command);
+
         match &self.options.action {
             ExecAction::Command(_) => match command.status() {
                 Ok(status) => {
@@ -1063,6 +1066,94 @@ pub fn xargs_main(args: &[&str]) -> i32 {
             } else {
                 1
             }
+        }
+    }
+}
+
+/// Verification hooks (compiled only with `--cfg uutils_findutils_verif`).
+#[cfg(uutils_findutils_verif)]
+pub mod verif {
+    use super::{ArgumentKind, ArgumentReader};
+    use std::cell::RefCell;
+    use std::ffi::OsString;
+    use std::io::{self, Read};
+    use std::process::{Command, ExitStatus};
+
+    /// A reader that hands out the given chunks one `read()` at a time.
+    struct ChunkReader {
+        chunks: std::collections::VecDeque<Vec<u8>>,
+    }
+
+    impl Read for ChunkReader {
+        fn read(&mut self, buf: &mut [u8]) -> io::Result<usize> {
+            loop {
+                let Some(front) = self.chunks.front_mut() else {
+                    return Ok(0);
+                };
+                if front.is_empty() {
+                    self.chunks.pop_front();
+                    continue;
+                }
+                let n = front.len().min(buf.len());
+                buf[..n].copy_from_slice(&front[..n]);
+                front.drain(..n);
+                return Ok(n);
+            }
+        }
+    }
+
+    /// Runs one of the two private argument readers over a stream cut into the
+    /// given chunks; returns (bytes, hard-terminated) pairs or the error text.
+    pub fn read_args(
+        delimiter: Option<u8>,
+        chunks: Vec<Vec<u8>>,
+    ) -> Result<Vec<(Vec<u8>, bool)>, String> {
+        use std::os::unix::ffi::OsStrExt;
+        let rd = ChunkReader {
+            chunks: chunks.into(),
+        };
+        let mut reader: Box<dyn ArgumentReader> = match delimiter {
+            Some(d) => Box::new(super::ByteDelimitedArgumentReader::new(rd, d)),
+            None => Box::new(super::WhitespaceDelimitedArgumentReader::new(rd)),
+        };
+        let mut out = vec![];
+        loop {
+            match reader.next() {
+                Ok(Some(arg)) => out.push((
+                    arg.arg.as_bytes().to_vec(),
+                    arg.kind == ArgumentKind::HardTerminated,
+                )),
+                Ok(None) => return Ok(out),
+                Err(e) => return Err(e.to_string()),
+            }
+        }
+    }
+
+    /// What a scripted child does: the raw wait status, or a spawn error.
+    pub type Executor = Box<dyn FnMut(&[OsString]) -> io::Result<ExitStatus>>;
+
+    thread_local! {
+        static EXECUTOR: RefCell<Option<Executor>> = const { RefCell::new(None) };
+    }
+
+    /// Installs (or removes) a recorder that replaces process creation on this thread.
+    pub fn set_executor(executor: Option<Executor>) {
+        EXECUTOR.with(|e| *e.borrow_mut() = executor);
+    }
+
+    pub(super) struct HookedCommand(pub(super) Command);
+
+    impl HookedCommand {
+        pub(super) fn status(&mut self) -> io::Result<ExitStatus> {
+            EXECUTOR.with(|e| {
+                if let Some(executor) = e.borrow_mut().as_mut() {
+                    let mut argv = vec![self.0.get_program().to_owned()];
+                    argv.extend(self.0.get_args().map(|a| a.to_owned()));
+                    executor(&argv)
+                } else {
+                    self.0.status()
+                }
+            })
         }
     }
 }
